@@ -40,7 +40,7 @@ def _check_written(t, a, sig, **kw):
 
 def h_layout(nr, nc, zeros):
     md = pick(['none', 'both'], 'md')
-    t, a = make_table(nr, nc, md=md, zeros=zeros, type_=pick(['OTU table', None], 'type'))
+    t, a = make_table(nr, nc, md=md, zeros=zeros, type_=pick(['OTU table', None], 'type'), late_zero=True)
     accessed = pick(['fresh', 'nnz-read', 'written-before'], 'history')
     if accessed == 'nnz-read':
         t.nnz
